@@ -312,6 +312,7 @@ func (s *Server) Subscribe(stream pb.GNMI_SubscribeServer) error {
 		remove := addSubscription(s.m, c.sr.GetSubscribe(),
 			&matchClient{acl: c.acl, q: c.queue})
 		defer remove()
+		verifPoint("subscribe.registered")
 		if !c.sr.GetSubscribe().GetUpdatesOnly() {
 			go s.processSubscription(&c)
 		}
@@ -406,6 +407,7 @@ func (s *Server) processSubscription(c *streamClient) {
 		}
 		log.V(2).Infof("end processSubscription for %p", c)
 	}()
+	verifPoint("subscribe.walk.start")
 	if !c.sr.GetSubscribe().GetUpdatesOnly() {
 		for _, subscription := range c.sr.GetSubscribe().Subscription {
 			var fullPath []string
@@ -429,6 +431,7 @@ func (s *Server) processSubscription(c *streamClient) {
 	}
 
 	_, err = c.queue.Insert(syncMarker{})
+	verifPoint("subscribe.walk.end")
 }
 
 // processPollingSubscription handles the POLL mode Subscription RPC.
